@@ -128,6 +128,8 @@ class FlowAnalysis:
             a, b = self.ev(n.left, st), self.ev(n.comparators[0], st)
             op = n.ops[0]
             if isinstance(op, (ast.Is, ast.IsNot)):
+                if a in (T, F) and b in (T, F):
+                    return (T if a == b else F) if isinstance(op, ast.Is) else (F if a == b else T)
                 if a == ("none",) and b == ("none",):
                     return T if isinstance(op, ast.Is) else F
                 if (a == ("none",)) != (b == ("none",)) and TOP not in (a, b) and UNDEF not in (a, b):
@@ -318,9 +320,37 @@ class FlowAnalysis:
             elif isinstance(test.op, ast.Or) and not val:
                 for v in test.values:
                     self.refine(v, st, False)
+            else:
+                # `a or b` holds / `a and b` fails: one alternative per operand k (operands before k have the other outcome);
+                # what all feasible alternatives agree on is learnt
+                hit = val  # outcome of the deciding operand: True for Or-true, False for And-false
+                alts = []
+                for k in range(len(test.values)):
+                    alt = st.copy()
+                    feasible = True
+                    for j in range(k):
+                        if self.truth(self.ev(test.values[j], alt)) == (T if hit else F):
+                            feasible = False
+                            break
+                        self.refine(test.values[j], alt, not hit)
+                    if not feasible:
+                        continue
+                    if self.truth(self.ev(test.values[k], alt)) == (F if hit else T):
+                        continue
+                    self.refine(test.values[k], alt, hit)
+                    alts.append(alt)
+                if alts:
+                    for name in set().union(*[set(a.env) for a in alts]):
+                        vals = [a.env.get(name, TOP) for a in alts]
+                        if all(v == vals[0] for v in vals[1:]) and st.env.get(name, TOP) == TOP:
+                            st.env[name] = vals[0]
         elif isinstance(test, ast.Compare) and len(test.ops) == 1 and isinstance(test.ops[0], (ast.Is, ast.IsNot)):
             l, r = test.left, test.comparators[0]
             is_none = isinstance(r, ast.Constant) and r.value is None
+            if isinstance(r, ast.Constant) and r.value in (True, False) and isinstance(r.value, bool) and isinstance(l, ast.Name):
+                holds = val if isinstance(test.ops[0], ast.Is) else not val
+                if holds and st.env.get(l.id, TOP) == TOP:
+                    st.env[l.id] = T if r.value else F
             if is_none and isinstance(l, ast.Name):
                 isnone = val if isinstance(test.ops[0], ast.Is) else not val
                 if isnone:
